@@ -275,6 +275,10 @@ func init() {
 	reg[ReuseTwice]("ReuseTwice", true)
 	reg[ReuseDeep]("ReuseDeep", true)
 	reg[sub.Odd]("SubOdd", true)
+	// row types that are not records: registered struct types used as T itself
+	reg[time.Time]("RowTime", true)
+	reg[null.Int]("RowNullInt", true)
+	reg[null.String]("RowNullString", true)
 	reg[SelfRef]("SelfRef", false)
 	reg[MutualA]("MutualA", false)
 	reg[SelfSlice]("SelfSlice", false)
